@@ -265,7 +265,7 @@ func (m *Model) RunNilErr(s *Sink, rule string) {
 			parFns = append(parFns, fn)
 		}
 	}
-	newErr := m.Method("parser", "Parser", "newError")
+	newErr := m.parserNewError()
 	if newErr == nil {
 		s.Undecided(rule, "parser.newError", "-", "not found")
 		return
